@@ -128,4 +128,8 @@ def run(ctx: Ctx) -> None:
     from .c05 import unfiltered_rule, walker_rule
     walker_rule(ctx, "C04.R4", only=("reachability",))
     unfiltered_rule(ctx, "C04.R4")
+    # the recursive set that the full and position-independent deciders consult, end to end on the model grammars (C05.R6)
+    from .grammodel import analysis_rule
+    ctx.rule("C04.R5", "the recursive set the full / position-independent deciders consult is exact on the model grammars (both modes)")
+    ctx.floor("C04.R5", analysis_rule(ctx, "C04.R5", ("recursive",)), 16, "model grammar x mode")
     ctx.assumptions += ["exhaustive enumeration of decision sequences is not performed (not this family)"]
